@@ -532,11 +532,36 @@ func c01WsWrite(w *World, r *Report) {
 		}
 	})
 	// a WriteMessage call whose payload is the (phi of the) buffer itself
+	forwardsToWriteMessage := func(g *ssa.Function, argIdx int) bool {
+		if g == nil || !inModule(g) || argIdx >= len(g.Params) {
+			return false
+		}
+		for _, c2 := range callsIn(g) {
+			if f2 := sCallee(c2); f2 != nil && f2.Name() == "WriteMessage" {
+				a2 := c2.Common().Args[len(c2.Common().Args)-1]
+				if a2 == ssa.Value(g.Params[argIdx]) {
+					return true
+				}
+			}
+		}
+		return false
+	}
 	for _, c := range callsIn(fn) {
 		f := sCallee(c)
-		if f != nil && f.Name() == "WriteMessage" {
-			a := c.Common().Args[len(c.Common().Args)-1]
-			if _, isSlice := a.(*ssa.Slice); !isSlice {
+		args := c.Common().Args
+		isSend := f != nil && f.Name() == "WriteMessage"
+		payload := ssa.Value(nil)
+		if isSend {
+			payload = args[len(args)-1]
+		} else if sc := c.Common().StaticCallee(); sc != nil {
+			for i, a := range args {
+				if _, isBytes := a.Type().Underlying().(*types.Slice); isBytes && forwardsToWriteMessage(sc, i) {
+					isSend, payload = true, a
+				}
+			}
+		}
+		if isSend && payload != nil {
+			if _, isSlice := payload.(*ssa.Slice); !isSlice {
 				wholeSent = true
 			}
 		}
